@@ -6,6 +6,7 @@ package command
 // failure; completion signalled only after the last frame was handed to the wire.
 
 import (
+	"syscall"
 	"fmt"
 	"strings"
 	"time"
@@ -46,6 +47,9 @@ func c07check(st *vPipeRun, pattern []int) vs.CheckFunc {
 			case 3:
 				wantBuilt++
 				wantErrs = append(wantErrs, fmt.Sprintf("write-%d", i))
+			case 4:
+				wantBuilt++
+				wantErrs = append(wantErrs, syscall.ENOBUFS.Error())
 			}
 		}
 		if len(p.built) != wantBuilt {
@@ -89,7 +93,7 @@ func verifC07(c *drv.Ctx) {
 	c.R.Rule = "request streams = every outcome pattern over {ok, request error, build error, write error} up to the stated length, run through the REAL startScanEngine + packet engine " +
 		"(packetSource, packetMultiGenerator(N), MergeBufferDataChan, sender, receiver, mergeErrChan, LIFO buffer pool, channel capacities 100->2) under the controlled scheduler; " +
 		"every schedule with at most d deviations from the default schedule is executed; scenarios {maxLen N d slowWriterAndLogger} (a negative maxLen: only the patterns of exactly that length in which a build error occupies the first or second position): " + fmt.Sprint(scs) +
-		"; non-trivial = pattern with at least one request and N workers; distinct = (pattern, N, slow, d)"
+		"; plus 7 patterns with writes that fail with the bare errno ENOBUFS (the same error value each time) x workers {1,2}, d = 1; non-trivial = pattern with at least one request and N workers; distinct = (pattern, N, slow, d)"
 	idx := 0
 	seen := map[string]bool{}
 	for _, s := range scs {
@@ -125,6 +129,26 @@ func verifC07(c *drv.Ctx) {
 				c.Sample(map[string]any{"scenario": name, "executions": r.Execs, "bound_completed": r.BoundCompleted, "distinct_wire_orders_and_error_orders": len(r.Outcomes), "max_threads": r.MaxThreads})
 			}
 		})
+	}
+	// writes that fail with the bare errno (symbol 4): every failure carries the same error VALUE, each is
+	// still one failed write and one report
+	for _, p := range [][]int{{4, 4}, {4, 0, 4}, {4, 3, 4}, {4, 4, 4}, {0, 4, 4, 0}, {4, 1, 4}, {4, 2, 4}} {
+		for _, workers := range []int{1, 2} {
+			p := p
+			name := fmt.Sprintf("pattern=%s workers=%d slow=false bound=1 (4 = write fails with the bare errno)", vPatStr(p), workers)
+			idx++
+			if c.Expired() {
+				break
+			}
+			st, cfg, main := vPacketScenario(p, workers, 300*time.Millisecond, false, false, 2)
+			r := vs.Explore(vs.Options{Bound: 1, Iterate: true, Deadline: c.Deadline, Shard: c.Shard, NShard: c.NShard}, cfg, main, c07check(st, p))
+			c.Explore(name, r, func(v vs.Violation) string {
+				return fmt.Sprintf("pipeline:pattern=%s,workers=%d:%s", vPatStr(p), workers, strings.SplitN(v.Msg, ":", 2)[0])
+			})
+			if c.Shard == 0 {
+				c.Nontrivial(1)
+			}
+		}
 	}
 	// unscaled long stream: more requests than the real 100-slot buffers, default schedule and all single deviations
 	idx++
